@@ -229,6 +229,14 @@ def main():
                             {"t": "meas", "m": ["int", "10", "1"], "s": ["int", "1", "1"], "u": [[None, "watt", 1]]},
                             {"t": "level", "m": rng.choice([["int", "10", "1"], ["int", "1", "1"]]), "log": rng.choice(["decibel", "bel"]), "prefix": None, "ref": {"m": ["int", "1", "1"], "u": [[None, "watt", 1]]}}])
         mcases.append({"op": "eq", "l": lv, "r": other})
+    # measurements with an uncertainty on two different temperature scales (the uncertainty is a difference, the reading is not): == is symmetric
+    TS = ("kelvin", "celsius", "fahrenheit", "Rankine")
+    for sa in TS:
+        for sb in TS:
+            if sa == sb: continue
+            for (xa, ua_), (xb, ub_) in ((("0", "1/10"), ("50", "31")), (("20", "1/2"), ("68", "1")), (("300", "5"), ("27", "3")), (("-40", "1"), ("-40", "2")), (("100", "1/4"), ("212", "40"))):
+                fr_ = lambda t_: ["float", t_.split("/")[0], t_.split("/")[1]] if "/" in t_ else ["int", t_, "1"]
+                mcases.append({"op": "eq", "l": {"t": "meas", "m": fr_(xa), "s": fr_(ua_), "u": [[None, sa, 1]]}, "r": {"t": "meas", "m": fr_(xb), "s": fr_(ub_), "u": [[None, sb, 1]]}})
     mr = impl("meas_worker.py", {"cases": mcases})["results"]
     mtxt = []
     for case, rec in zip(mcases, mr):
